@@ -25,6 +25,7 @@ type res struct {
 	nkeys, held, qc int
 	ops             map[string]int
 	heapDelta       int64
+	retained        []string
 }
 
 func oneCase(r *common.Rng, nkeys int, measureHeap bool) res {
@@ -173,7 +174,18 @@ func oneCase(r *common.Rng, nkeys int, measureHeap bool) res {
 	if qc > held {
 		overBound.Add(1)
 	}
-	out := res{nkeys: nkeys, held: held, qc: qc, ops: ops}
+	var retained []string
+	opNames := []string{"lock_unlock", "lock_ttl_expiry", "lock_cancelled_waiter_unlock", "handover_then_unlock", "relock",
+		"lock_dead_ctx_free_key", "lock_dead_ctx_held_key", "unlock_never_locked_key", "duplicate_unlock", "late_unlock_after_ttl",
+		"unlock_wrong_key", "ttl_zero_then_unlock", "dead_ctx_then_relock_then_duplicate_unlock", "ttl_and_cancel_then_late_unlocks"}
+	for i := 0; i < nkeys && len(retained) < 8 && qc > held; i++ {
+		for _, k := range []string{fmt.Sprintf("k%d", i), fmt.Sprintf("k%d-other", i)} {
+			if n, has := lock.QueueLen(l, k); has {
+				retained = append(retained, fmt.Sprintf("%s (history: %s; callers queued now: %d)", k, opNames[kinds[i]], n))
+			}
+		}
+	}
+	out := res{nkeys: nkeys, held: held, qc: qc, ops: ops, retained: retained}
 	if measureHeap {
 		runtime.GC()
 		runtime.ReadMemStats(&m1)
@@ -209,7 +221,7 @@ func main() {
 			}
 		}
 		r := oneCase(rng.Fork(fmt.Sprintf("case%d", i)), nkeys, i == ncases-1)
-		d := map[string]interface{}{"kind": "residue", "distinct_keys": r.nkeys, "keys_left_locked": r.held, "queue_objects_after_quiescence": r.qc, "ops": r.ops}
+		d := map[string]interface{}{"kind": "residue", "distinct_keys": r.nkeys, "keys_left_locked": r.held, "queue_objects_after_quiescence": r.qc, "ops": r.ops, "keys_with_retained_queue_object(first 8)": r.retained}
 		if i == ncases-1 {
 			d["heap_delta_bytes(reported only)"] = r.heapDelta
 			run.Meta.Extra["heap_delta_bytes_after_10000_keys"] = r.heapDelta
